@@ -113,6 +113,11 @@ func (g *G) Hostile(targets []ref.Rule, known []ref.Pred, checks bool) ref.Block
 		b.Rules = append(b.Rules, g.Rule())
 	}
 	if checks {
+		if len(targets) > 0 && g.R.Intn(3) == 0 {
+			// the very query of a policy or of somebody else's check, as a check of this block (which its
+			// own facts may well satisfy): what holds here says nothing about the same text elsewhere
+			b.Checks = append(b.Checks, ref.Check{Queries: []ref.Rule{targets[g.R.Intn(len(targets))]}})
+		}
 		for i := g.R.Intn(3); i > 0; i-- {
 			if g.R.Intn(2) == 0 {
 				b.Checks = append(b.Checks, ref.Check{Queries: []ref.Rule{g.QueryFrom(append(known, b.Facts...))}})
